@@ -87,6 +87,9 @@ def handle : Handler
     match unhexStr sep, strList l with
     | some sep, some l => some (hexStr (join sep l))
     | _, _ => some badArgs
+  | "pre.strofint", [i] => some (match intArg i with | some i => hexStr (strOfInt i) | none => badArgs)
+  | "pre.zfill", [s, w] =>
+    some (match unhexStr s, intArg w with | some s, some w => hexStr (zfill s w) | _, _ => badArgs)
   | "pre.plainint", args => str1 (fun s => outExc outInt (plainInt s)) args
   | "pre.plainintre", args => str1 (fun s => outBool (plainIntReFullmatch s).isSome) args
   | "pre.pyint", args => str1 (fun s => outExc outInt (pyIntPlain s)) args
